@@ -185,6 +185,20 @@ theorem sequence_map_pinned_counterexample :
       = .error .attributeError := by
   decide
 
+/-! ## `args_fresh` -/
+
+/-- **Fresh arguments.** Over any history of constructor calls (any constructor spec, any operands,
+    any callbacks, failing or not) starting from the empty log: the arguments of one invocation are
+    pairwise distinct, and distinct from (larger than) every argument handed to any earlier
+    invocation. -/
+theorem args_fresh (calls : List (CtorSpec × Env × Callbacks)) :
+    Fresh (calls.foldl (fun w c => (construct c.1 c.2.1 c.2.2 w).2) ⟨[], 0⟩) := by
+  suffices h : ∀ w, Fresh w → Fresh (calls.foldl (fun w c => (construct c.1 c.2.1 c.2.2 w).2) w) from
+    h _ fresh_init
+  induction calls with
+  | nil => intro w hw; exact hw
+  | cons c rest ih => intro w hw; exact ih _ (construct_fresh c.1 c.2.1 c.2.2 w hw)
+
 /-! ## `called_once` -/
 
 /-- **Called once.** After a successful constructor call and *any* sequence of builds, inference
